@@ -279,6 +279,40 @@ MUTATING_TREE_CALLS = {"remove_subtree", "remove_data_point_from_outliers", "rem
                        "add_data_point_to_outliers", "add_subtree", "create_root_node", "relabel_nodes"}
 
 
+def rule_P3(ctx):
+    """Block choice of the subtree move.  A Gibbs update of a randomly chosen block is invariant when the
+    probability of choosing the block does not depend on the variables inside it (or the weights carry the ratio
+    of the selection probabilities).  Here the block is selected through a data point drawn uniformly from ALL
+    non-outlier points of the current tree — a clone is hit in proportion to its size, and the block is the
+    subtree of that clone's grandparent, so the clones that select the block are inside it and are re-formed by
+    the move — while _correct_weights adds the two density terms only.  Fires on the pinned tree: recorded as a
+    known finding (F11; the authors' own TODO), with the exact-kernel demonstration in notes/triage."""
+    prog = ctx.prog
+    ctx.rule("P3", "the block (subtree) selection of the subtree move is independent of the state inside the block, or the corrected weight carries a selection term", 1)
+    f = prog.fn("ParticleGibbsSubtreeSampler.sample_tree")
+    ex = extract(prog, f, opaque_self_methods={"sample_swarm", "_correct_weights", "_sample_tree_from_swarm"}, **CI)
+    draws = ex.calls(".choice")
+    if len(draws) != 1:
+        raise AnalysisError("P3: expected one subtree-selecting draw in %s, found %d" % (f.qualname, len(draws)))
+    from ..termflow import show
+
+    pop = show(draws[0].args[0])
+    reads_block_state = ("labels" in pop) or (".nodes" in pop) or ("get_data_len" in pop)
+    g = prog.fn("ParticleGibbsSubtreeSampler._correct_weights")
+    exg = extract(prog, g, **CI)
+    adds = exg.calls(".add_particle")
+    extra = False
+    for ev in adds:
+        txt = show(ev.args[0])
+        # besides the incoming weight and the two log_p_one terms, is there any term that could be a selection ratio?
+        extra = extra or any(k in txt for k in ("len(", "get_data_len", "log(", "labels", "get_number_of_nodes"))
+    ok = (not reads_block_state) or extra
+    ctx.check(ok, "P3", "subtree move: block selection vs weight correction", f.where(draws[0].node),
+              "the subtree is selected by rng.choice over %s (one entry per non-outlier data point of the whole current tree, so a clone is chosen in proportion to its size and the chosen clone lies inside the block that is then re-formed), but the corrected particle weights contain only the two joint-density terms: the probability of selecting the same block differs between the current tree and a proposed one and is not compensated, so the move is not posterior-invariant (exact kernel on 3 data points, 2 particles, fully adapted: |pi P - pi|_1 = 1.5e-2, whole-tree move 1e-14)" % pop[:120],
+              construct=f.qualname, stmt=u(draws[0].node))
+    ctx.analysed(f, g)
+
+
 def rule_C1(ctx):
     prog = ctx.prog
     ctx.rule("C1", "a move that edits the tree it is given has its result rebound to the chain's tree at every call site", 3)
@@ -323,6 +357,7 @@ def run(ctx):
     ctx.note("the subtree move's missing term for the size-weighted random choice of the subtree (authors' TODO) is not claimed")
     rule_G(ctx)
     rule_P1(ctx)
+    rule_P3(ctx)
     rule_C1(ctx)
     # the Gibbs weights are log_p_one of *edited copies*: they are the target's values only if every edit of
     # a tree refreshes the cached likelihoods it invalidates (same rule objects as C06.M1 / M2)
